@@ -15,7 +15,8 @@ Literal port of the queue / hand-over logic of
 What is NOT modelled (trusted / only exercised by the correspondence run): `std::collections::BinaryHeap` is taken to
 be a priority queue ordered by `Task::cmp`, which compares `when` only — the element returned among equal `when` is
 unspecified, so the model takes a *choice oracle* `ch : Nat → Nat` (k-th pop ↦ which of the minimal elements) and
-every theorem quantifies over it; `mpsc` is taken to be FIFO; closures are opaque ids and the program is an
+every theorem quantifies over it (the heap ALGORITHM is ported in `Model/SchedMem.lean` (`stdPush`/`stdPop`), proved to be
+such a priority queue in `Proofs/HeapStd*.lean`, and put inside both loops in `Model/SchedHeap.lean`); `mpsc` is taken to be FIFO; closures are opaque ids and the program is an
 environment `Env σ` (what a task body / dsp / global scope does to the user state `σ` and which `schedule_at` calls it
 issues, *after* the `f64 as u64` truncation performed by both `schedule_at` entry points).
 -/
